@@ -42,16 +42,19 @@ func (t *TaskExecutor[T]) ExecuteAt(identifier T, callback func(), executionTime
 
 	var scheduledTask *ScheduledTask
 	scheduledTask = t.Executor.ExecuteAt(func() {
-		callback()
-
+		// a task stops being pending the moment it starts to run: claim the identifier before the callback is executed.
 		t.queuedElementsMutex.Lock()
-		defer t.queuedElementsMutex.Unlock()
+		if queuedElement, queuedElementExists := t.queuedElements.Get(identifier); !queuedElementExists || queuedElement != scheduledTask {
+			// the task was canceled or replaced after it was handed to a worker but before it started to run: Cancel
+			// already reported it as canceled (or its successor took over the identifier), so it must not run anymore.
+			t.queuedElementsMutex.Unlock()
 
-		// only remove the mapping if it still belongs to this task: the identifier might have been scheduled again while
-		// the callback was running, in which case the mapping already points to the successor.
-		if queuedElement, queuedElementExists := t.queuedElements.Get(identifier); queuedElementExists && queuedElement == scheduledTask {
-			t.queuedElements.Delete(identifier)
+			return
 		}
+		t.queuedElements.Delete(identifier)
+		t.queuedElementsMutex.Unlock()
+
+		callback()
 	}, executionTime)
 
 	if scheduledTask != nil {
